@@ -778,11 +778,12 @@ func (m *Master) triggerHook(fw string, cmd *controlcommands.MesosCommand_Trigge
 	}
 	go func() {
 		time.Sleep(m.Latency / 5)
-		if !respond {
-			return
-		}
 		m.reply(t, controlcommands.NewMesosCommandResponse_TriggerHook(cmd, nil, t.ID))
+		if !respond {
+			return // the trigger is acknowledged but the hook process never ends: the core's hook timeout decides
+		}
 		time.Sleep(m.Latency / 5)
+		m.rec("MHookDone", "task", t.ID, "class", ShortClass(t.Name), "env", cmd.EnvironmentId.String(), "exit", exit, "voluntary", voluntary)
 		st := mesos.TASK_FINISHED
 		if exit != 0 {
 			st = mesos.TASK_FAILED
